@@ -89,6 +89,15 @@ CHECKS = {
              'proxies of every kind and disconnect callbacks is lost after every prefix of a generated history; every '
              'pending call must fail once with the reason, timers vanish, callbacks run once, nothing fires later.',
         note='liveness decided as bounded safety at quiescence (transport closed, virtual clock dry); ' + TRUST),
+    'C10': dict(
+        category='exploration', design_ref='DESIGN.md section 3 C10',
+        technique='Hypothesis-generated object classes and call messages, dispatch oracle + strict reference decoding of replies',
+        text='Object classes are generated (interfaces on base and subclass, dbus_<name> and decorator bindings, shared '
+             'member names, dbusCaller) and driven with generated call messages (parsed from reference bytes, flags '
+             'included) and scripted outcomes incl. late Deferreds, exceptions with hostile text, unencodable returns; the '
+             'number, addressing and content of replies and the invocation log are compared with a dispatch oracle coded '
+             'from the property statement.',
+        note='DBusObjectHandler is driven on a recording connection stub; ' + TRUST),
     'C18': dict(
         category='exploration', design_ref='DESIGN.md section 3 C18',
         technique='bounded-exhaustive string enumeration + Hypothesis, differential against hand-written grammar recognisers',
